@@ -188,7 +188,7 @@ def CONSTRAINT(x):
     return CURRENT['w'].constraint(x)
 
 
-def whole(ens_kind, member_kind, nbins, cfg, gens, step=False):
+def whole(ens_kind, member_kind, nbins, cfg, gens, step=False, legacy=0):
     """a real LatticeSolver / BuckshotSolver solve through the public API: members are configured, deep-copied, started, run
     (generation limit `gens`) and reduced by mystic; cost / penalty / constraints are uninterpreted, the strict box symbolic"""
     dim = len(nbins)
@@ -214,6 +214,13 @@ def whole(ens_kind, member_kind, nbins, cfg, gens, step=False):
             ens.SetConstraints(CONSTRAINT)
         if w.p is not None:
             ens.SetPenalty(PENALTY)
+        if legacy:
+            # an evaluation monitor that already holds data (legacy points, a monitor kept from an earlier run)
+            from mystic.monitors import Monitor
+            em = Monitor()
+            for k in range(legacy):
+                em(list(ctx.reals('legacy%d_' % k, dim)), ctx.real('legacyy%d' % k))
+            ens.SetEvaluationMonitor(em)
         if step:
             ens.SetObjective(COST)
             for k in range(gens + 1):
@@ -271,6 +278,8 @@ def instances(tier, seed):
                                 ('lattice', 'NM', (2, 1), 'box', 1), ('buckshot', 'NM', (2,), 'box', 1), ('buckshot', 'NM', (2,), 'box+cons+pen', 1),
                                 ('lattice', 'Powell', (2,), 'box', 1), ('lattice', 'NM', (2,), 'box', 2)]):
         out.append(Instance('whole-solve/%s/%s/nbins=%s/%s/generations=%d' % (ek, mk, 'x'.join(map(str, nb)), cfg, g), whole(ek, mk, nb, cfg, g), qtimeout=6000))
+    for k in ((2,) if q else (1, 2, 3)):
+        out.append(Instance('whole-solve/lattice/NM/nbins=2/box/generations=1/evaluation-monitor-with-%d-earlier-records' % k, whole('lattice', 'NM', (2,), 'box', 1, legacy=k), qtimeout=6000))
     for ek in ('lattice', 'buckshot'):
         for mk in ('NM', 'DE'):
             for n in ((1, 2, 3) if q else (1, 2, 3, 4)):
